@@ -6,6 +6,7 @@ package main
 
 import (
 	"bufio"
+	"context"
 	"fmt"
 	"io"
 	"os"
@@ -13,8 +14,13 @@ import (
 	"sort"
 	"strconv"
 	"strings"
+	"sync/atomic"
 	"time"
 )
+
+func contextWithTimeout(d time.Duration) (context.Context, context.CancelFunc) {
+	return context.WithTimeout(context.Background(), d)
+}
 
 type Verdict int
 
@@ -42,6 +48,9 @@ type Solver struct {
 	Errors     []string
 	logw       io.Writer // optional query log (for cross-solver replay)
 	logN       int
+	logPath    string
+	logf       *os.File
+	logMax     int
 }
 
 type memoEnt struct {
@@ -49,10 +58,39 @@ type memoEnt struct {
 	m Model
 }
 
-var solverBin = []string{"z3", "-in"}
+// Primary solver: z3 5.1.0 ("z3-new", the z3-solver wheel's CLI) when it is on PATH - on the bit-vector queries of the
+// codec harnesses it is 20-40x faster than the distribution's z3 4.8.12 - otherwise z3. GOSYM_SOLVER overrides.
+// The other one is used for the per-run cross-check (crossCheckBin).
+var solverBin, crossCheckBin = pickSolvers()
+
+func pickSolvers() (primary, cross []string) {
+	has := func(n string) bool { _, err := exec.LookPath(n); return err == nil }
+	switch v := os.Getenv("GOSYM_SOLVER"); {
+	case v != "":
+		primary = []string{v, "-in"}
+	case has("z3-new"):
+		primary = []string{"z3-new", "-in"}
+	default:
+		primary = []string{"z3", "-in"}
+	}
+	for _, c := range []string{"z3", "z3-new"} {
+		if c != primary[0] && has(c) {
+			cross = []string{c}
+			break
+		}
+	}
+	return
+}
+
+var qlogSeq int64
 
 func NewSolver(store *TermStore, timeoutMs int) (*Solver, error) {
-	s := &Solver{store: store, timeoutMs: timeoutMs, bin: solverBin}
+	return NewSolverLog(store, timeoutMs, "", 0)
+}
+
+// NewSolverLog is NewSolver with a query log of at most max queries written to path.
+func NewSolverLog(store *TermStore, timeoutMs int, path string, max int) (*Solver, error) {
+	s := &Solver{store: store, timeoutMs: timeoutMs, bin: solverBin, logPath: path, logMax: max}
 	if err := s.start(); err != nil {
 		return nil, err
 	}
@@ -77,6 +115,21 @@ func (s *Solver) start() error {
 	s.defined = map[int]bool{}
 	s.memo = map[string]memoEnt{}
 	fmt.Fprintf(s.in, "(set-option :print-success false)\n(set-option :produce-models true)\n(set-option :timeout %d)\n", s.timeoutMs)
+	if s.logPath != "" && s.logw == nil {
+		if f, err := os.Create(s.logPath); err == nil {
+			s.logw = f
+			s.logf = f
+			fmt.Fprintf(f, "(set-option :print-success false)\n(set-option :timeout 4000)\n")
+		}
+	}
+	if dir := os.Getenv("GOSYM_QLOG"); dir != "" && s.logw == nil {
+		// query log: the exact text sent to the solver (definitions at base level, push/assert/check-sat/pop per
+		// query, each followed by a "; expect <verdict>" comment) - replayable on another solver
+		os.MkdirAll(dir, 0o755)
+		if f, err := os.Create(fmt.Sprintf("%s/q-%d-%d.smt2", dir, os.Getpid(), atomic.AddInt64(&qlogSeq, 1))); err == nil {
+			s.logw = f
+		}
+	}
 	return nil
 }
 
@@ -93,6 +146,8 @@ func (s *Solver) Close() {
 func (s *Solver) Reset(store *TermStore) error {
 	s.Close()
 	s.store = store
+	// term ids restart with the new store: the query log cannot be continued
+	s.logPath, s.logw = "", nil
 	return s.start()
 }
 
@@ -186,7 +241,12 @@ func (s *Solver) Check(conds []*Term, want []*Term) (Verdict, Model) {
 	}
 	sb.WriteString("(check-sat)\n")
 	s.Queries++
-	if s.logw != nil {
+	logThis := s.logw != nil && (s.logMax == 0 || s.logN < s.logMax)
+	if s.logw != nil && !logThis {
+		// definitions must stay complete for later logged queries: none follow, so stop logging altogether
+		s.logw = nil
+	}
+	if logThis {
 		io.WriteString(s.logw, sb.String())
 	}
 	if _, err := io.WriteString(s.in, sb.String()); err != nil {
@@ -221,8 +281,8 @@ func (s *Solver) Check(conds []*Term, want []*Term) (Verdict, Model) {
 			v = Inconclusive
 		}
 	}
-	if s.logw != nil {
-		fmt.Fprintf(s.logw, "; expect %s\n(pop)\n", v)
+	if logThis {
+		fmt.Fprintf(s.logw, "; expect %s %dms\n(pop)\n", v, time.Since(t0).Milliseconds())
 		s.logN++
 	}
 	io.WriteString(s.in, "(pop)\n")
@@ -325,4 +385,54 @@ func tokenize(s string) []string {
 		}
 	}
 	return out
+}
+
+// crossCheck replays a query log on the other solver and compares verdicts. It returns the number of queries
+// compared (both gave sat/unsat), the number the other solver did not decide in time, and the disagreements.
+func crossCheck(path string, budget time.Duration) (compared, undecided int, disagree []string, err error) {
+	if len(crossCheckBin) == 0 {
+		return 0, 0, nil, fmt.Errorf("no second solver on PATH")
+	}
+	b, err := os.ReadFile(path)
+	if err != nil {
+		return 0, 0, nil, err
+	}
+	var expect []string
+	for _, l := range strings.Split(string(b), "\n") {
+		if strings.HasPrefix(l, "; expect ") {
+			f := strings.Fields(l)
+			expect = append(expect, f[2])
+		}
+	}
+	if len(expect) == 0 {
+		return 0, 0, nil, nil
+	}
+	ctx, cancel := contextWithTimeout(budget)
+	defer cancel()
+	out, _ := exec.CommandContext(ctx, crossCheckBin[0], path).CombinedOutput()
+	var got []string
+	for _, l := range strings.Split(string(out), "\n") {
+		l = strings.TrimSpace(l)
+		switch {
+		case l == "sat" || l == "unsat" || l == "unknown":
+			got = append(got, l)
+		case strings.HasPrefix(l, "(error"):
+			return compared, undecided, disagree, fmt.Errorf("%s: %s", crossCheckBin[0], l)
+		}
+	}
+	for i, e := range expect {
+		if i >= len(got) {
+			undecided += len(expect) - i
+			break
+		}
+		switch {
+		case got[i] == "unknown" || e == "inconclusive":
+			undecided++
+		case got[i] == e:
+			compared++
+		default:
+			disagree = append(disagree, fmt.Sprintf("query %d: %s says %s, %s says %s", i, solverBin[0], e, crossCheckBin[0], got[i]))
+		}
+	}
+	return
 }
